@@ -211,4 +211,91 @@ example : (inboundCheck [1,2,3,4] (.v4 [127,0,0,1])).cls = some .malformed := by
 example : (gatewayStep [1,2,3,4] (.v4 [127,0,0,1]) (.v4 [10,0,0,1])).replies.length = 1 := by decide
 example : Ip.wf (.v4 [127,0,0,1]) := rfl
 
+/-! ## the gateway glue (`Forwarded` arm of the receive closure of `TunnelGateway::start_server`)
+
+`gatewayStep d peer local` stands for gateway.rs `match inbound_datagram_check(&packet[..], from.ip()) { Ok(view) =>
+{ observe; self.dispatcher.try_dispatch(view) } Err(e) => { create_scmp_error(e, local_addr, (WILDCARD, from.ip()), buf);
+encapsulate; queue to `from` } }` with `d = packet`, `peer = from.ip()`, `local = socket.local_addr().ip()` (fallback
+`0.0.0.0`).  Two ties to the real closure: (T) the translator reads the arm's text and emits the facts below - a changed
+argument (`from.ip().to_canonical()`), a dispatch of something other than the bound `view`, a dispatch in the `Err` arm,
+a further arm, a second `try_dispatch` site turn a fact `false` and this theorem stops checking; (X) the harness stream
+"gateway" runs the real `start_server` on loop-back sockets with a real WireGuard client and compares what the recording
+dispatcher and the client receive with `gatewayStep`, for IPv4, IPv6 and v4-mapped peers. -/
+
+/-- the source text of the `Forwarded` arm has the shape `gatewayStep` models (facts regenerated from gateway.rs) -/
+theorem gateway_glue_generated :
+    GATEWAY_FORWARDED_BINDS_PACKET = true ∧ GATEWAY_CHECK_ARG_IS_WHOLE_PAYLOAD = true ∧ GATEWAY_CHECK_ARG_IS_FROM_IP = true ∧
+    GATEWAY_CHECK_ARMS_ARE_OK_VIEW_AND_ERR = true ∧ GATEWAY_CHECK_ARMS = 2 ∧
+    GATEWAY_DISPATCHES_VIEW = true ∧ GATEWAY_OK_ARM_SENDS_NOTHING = true ∧
+    GATEWAY_ERR_ARM_NEVER_DISPATCHES = true ∧ GATEWAY_TRY_DISPATCH_SITES = 1 ∧
+    GATEWAY_REPLY_BUILT_ONCE = true ∧ GATEWAY_REPLY_SRC_IS_LOCAL_ADDR = true ∧ GATEWAY_REPLY_DST_IS_FROM_IP = true ∧
+    GATEWAY_REPLY_SENT_TO_FROM = true ∧ LOCAL_ADDR_IS_SOCKET_LOCAL_IP = true ∧ LOCAL_ADDR_FALLBACK_UNSPECIFIED = true := by
+  decide
+
+/-- what the glue hands to the dispatcher is exactly the view the policy check returned, and it does so for no other
+    verdict; what it sends back is built from the rejection alone (`gatewayStep` unfolded - the statement the gateway
+    stream tests on the real closure) -/
+theorem gateway_dispatches_exactly_the_view (d : Bytes) (peer loc : Ip) :
+    (∀ v, inboundCheck d peer = .dispatch v →
+        (gatewayStep d peer loc).dispatched = [v] ∧ (gatewayStep d peer loc).replies = []) ∧
+    ((∀ v, inboundCheck d peer ≠ .dispatch v) → (gatewayStep d peer loc).dispatched = []) := by
+  constructor
+  · intro v h
+    simp [gatewayStep, h]
+  · intro h
+    unfold gatewayStep
+    split
+    · rename_i v hv
+      exact absurd hv (h v)
+    · rfl
+    · split
+      · rfl
+      · split <;> rfl
+
+/-- family of an address: 4 = `IpAddr::V4`, 6 = `IpAddr::V6` -/
+def Ip.family : Ip → Nat
+  | .v4 _ => 4
+  | .v6 _ => 6
+
+/-- `hostIp` (which hard-codes kind 0 → `Ip.v4`, kind 1 → `Ip.v6`) agrees with the generated description of
+    `WireHostAddr::ip()`: an address is produced only for the kinds in `IP_KINDS`, and of the family `IP_KIND_FAMILY`
+    lists for that kind -/
+theorem hostIp_kinds_generated (nib : Nat) (raw : Bytes) (ip : Ip) (h : hostIp nib raw = some ip) :
+    addrKind nib ∈ IP_KINDS ∧ (addrKind nib, ip.family) ∈ IP_KIND_FAMILY := by
+  simp only [hostIp] at h
+  generalize addrKind nib = k at h ⊢
+  by_cases h0 : k = 0
+  · subst h0
+    simp at h
+    obtain ⟨_, rfl⟩ := h
+    exact ⟨by decide, by simp [Ip.family, IP_KIND_FAMILY]⟩
+  · by_cases h1 : k = 1
+    · subst h1
+      simp at h
+      obtain ⟨_, rfl⟩ := h
+      exact ⟨by decide, by simp [Ip.family, IP_KIND_FAMILY]⟩
+    · simp [h0, h1] at h
+
+/-- every kind the generated table says yields an IP does so in the model (given the demanded length) -/
+theorem hostIp_some_of_ip_kind (nib : Nat) (raw : Bytes) (hk : addrKind nib ∈ IP_KINDS)
+    (hl : raw.length = EXPECTED_ADDR_LEN.getD (addrKind nib) 0) : (hostIp nib raw).isSome = true := by
+  unfold hostIp
+  simp only [IP_KINDS, List.mem_cons, List.mem_nil_iff, or_false] at hk
+  rcases hk with h | h <;> simp [h] at hl ⊢ <;> simp [hl]
+
+/-- `PathType::from(u8)` is injective as far as the filter needs it: the literal arms map distinct bytes to distinct
+    variants (every other byte `b` becomes `Other(b)`), and every accepted path type is one of the literal arms - so
+    "`path_type()` is `Scion` or `Empty`" is the same as "the path-type byte is `PT_SCION` or `PT_EMPTY`", which is how
+    `inboundCheck` tests it -/
+theorem pathType_from_u8_injective_generated :
+    (PATH_TYPE_FROM_U8_ARMS.map Prod.fst).Nodup ∧ (PATH_TYPE_FROM_U8_ARMS.map Prod.snd).Nodup ∧
+    (∀ a ∈ ACCEPTED_PATH_TYPES, a ∈ PATH_TYPE_FROM_U8_ARMS.map Prod.fst) ∧
+    (PT_EMPTY, 0) ∈ PATH_TYPE_FROM_U8_ARMS ∧ PT_EMPTY ∈ ACCEPTED_PATH_TYPES ∧ PT_SCION ∈ ACCEPTED_PATH_TYPES ∧
+    PT_ONEHOP ∈ PATH_TYPE_FROM_U8_ARMS.map Prod.fst ∧ PT_ONEHOP ∉ ACCEPTED_PATH_TYPES := by
+  decide
+
+-- the gateway glue on the v4-mapped peer of a dual-stack socket (what the harness' third pair exercises):
+-- source host = IPv4 127.0.0.1 is refused, source host = IPv6 ::ffff:127.0.0.1 is dispatched
+example : (gatewayStep sampleV4 (.v6 [0,0,0,0,0,0,0,0,0,0,0xff,0xff,127,0,0,1]) (.v6 (List.replicate 16 0))).dispatched = [] := by decide
+
 end ScionVerif.SnapFilter
